@@ -219,8 +219,14 @@ def rule_r1(ctx) -> List[R.Inst]:
     ss = "reamber.osu.OsuSampleSet.OsuSampleSet"
     lit = lambda n: M.lit(M.cls(ss).mod, n, ss)  # noqa: E731
     try:
-        to_s, d1 = C.return_const_table(M.fn(ss + ".to_string").node, "sample_set", lit)
-        from_s, d2 = C.return_const_table(M.fn(ss + ".from_string").node, "sample_set", lit)
+        from .tablepairs import tables_of
+        from .. import tablefn as TF
+        get_tab = tables_of(ctx, ss)
+        try:
+            to_s, d1 = get_tab("to_string")
+            from_s, d2 = get_tab("from_string")
+        except (TF.Unknown, TypeError, ValueError) as e:
+            raise C.Unknown(str(e))
         file, line = fn_loc(M, ss + ".to_string")
         bad = [k for k, v in to_s.items() if from_s.get(v) != k] + [k for k, v in from_s.items() if to_s.get(v) != k]
         if bad or len(set(to_s.values())) != len(to_s):
